@@ -436,8 +436,15 @@ def main(argv):
             print(f"[{fl}] implementation: {st} {res}")
             rc = 1
             continue
-        mobs = run_model_many([case], fl)[0]
-        print(f"[{fl}] model/impl difference: {json.dumps(diff(res['obs'], mobs))[:1500]}")
+        if case.get("react"):
+            # reacting machines: the model is driven with every reaction as an explicit command (c15react.py)
+            from . import c15react
+            why = c15react.tied(case, res)
+            print(f"[{fl}] reactions run: {json.dumps(res['reacts'])[:1200]}")
+            print(f"[{fl}] model/impl difference: " + (f"not compared ({why})" if why else json.dumps(c15react.tie_one(case, fl, res)[0])[:1500]))
+        else:
+            mobs = run_model_many([case], fl)[0]
+            print(f"[{fl}] model/impl difference: {json.dumps(diff(res['obs'], mobs))[:1500]}")
         for p in res["problems"]:
             fid = classify(p, case, fl)
             print(f"[{fl}] {'known ' + fid if fid else 'VIOLATION'}: {p['kind']} step {p['step']}: {p['detail']}")
